@@ -370,6 +370,16 @@ func genFloatFit(r *vproto.Rng, w, prec int) float64 {
 }
 
 func genVal(r *vproto.Rng, p colPlan, max int) val {
+	if r.Intn(4) == 0 { // zero values alternate with non-zero ones: "", 0, 0.0 must come back as such
+		switch p.kind {
+		case "i":
+			return val{k: 'i', i: 0}
+		case "f":
+			return val{k: 'f', f: 0}
+		default:
+			return val{k: 's', s: ""}
+		}
+	}
 	switch p.kind {
 	case "i":
 		if !p.wide {
@@ -601,6 +611,7 @@ func genCase(r *vproto.Rng, tier string) fcase {
 		if r.Intn(4) == 0 { // a field no column matches
 			sp.sf = append(sp.sf, sfield{"Unmatched9", "", []string{"i", "f", "s"}[r.Intn(3)]})
 		}
+		sp.reuse = r.Bool() // decode every row into one reused record variable, or into a fresh one per row
 		return sp
 	}
 	// field-based call: all names / subset / permuted / duplicates / none
@@ -760,6 +771,16 @@ func corpus() []fcase {
 			out = append(out, fcase{w: w, r: spec{path: 'M', calls: sched}, recs: recs})
 			out = append(out, fcase{w: ws, r: spec{path: 'M', calls: sched}, recs: recs})
 		}
+	}
+	// 7c. one reused record variable: empty strings / zeros after non-empty values must be assigned, not skipped
+	{
+		ws := spec{path: 'S', sf: []sfield{{"G", "", "gP"}, {"ID", "", "i"}, {"Name", "", "s"}, {"V", "", "f"}, {"Note", "", "s"}}}
+		wf := spec{path: 'F', shpTyp: 1, ff: []ffield{{"ID", 'N', 10, 0}, {"Name", 'C', 50, 0}, {"V", 'F', 30, 10}, {"Note", 'C', 50, 0}}}
+		recs := []rec{{P(1, 2), []val{iv(1), sv("alpha"), fv(1.5), sv("first")}}, {P(3, 4), []val{iv(2), sv(""), fv(0), sv("second")}},
+			{P(5, 6), []val{iv(0), sv("gamma"), fv(2.5), sv("")}}, {P(7, 8), []val{iv(0), sv(""), fv(0), sv("")}}, {P(9, 9), []val{iv(5), sv("e"), fv(-1), sv("f")}}}
+		rd := spec{path: 'S', reuse: true, sf: []sfield{{"G", "", "gP"}, {"ID", "", "i"}, {"Name", "", "s"}, {"V", "", "f"}, {"Note", "", "s"}}}
+		out = append(out, fcase{w: ws, r: rd, recs: recs}, fcase{w: wf, r: rd, recs: recs})
+		out = append(out, fcase{w: ws, r: spec{path: 'M', calls: []spec{rd, {path: 'F'}, rd}}, recs: recs})
 	}
 	// 8. no geometry field in the archetype
 	out = append(out, fcase{w: spec{path: 'S', sf: []sfield{{"N", "", "i"}}}, r: spec{path: 'F'}, recs: nil})
